@@ -48,6 +48,10 @@ CHECKS = {
                 technique="exhaustive enumeration of small complete domains on the real code: all (want, have) pairs, all short strings over a 5-letter alphabet against a regular-expression reference, the +-1 version cube per model and all subsets of required models through the real ovniemu",
                 text="version_is_compatible on all 729 pairs over {0,1,2}^3; version_parse on all ~20k/98k strings of length <= 6/7 over {0,1,.,-,a} plus a malformed list; ovni_version_check_str on the +-1 cube around the library version (abort intercepted); the real ovniemu on traces requiring every version of the +-1 cube for each of the 8 models, mixed requirements across two streams in both orders, malformed strings, and all subsets of required models x one probe event per model (enabled iff required or -a).",
                 note="Trusted: the regular-expression reference of a well-formed version (leading zeros and numbers beyond int are not judged); the emulator binary built from the tree."),
+    "C15": dict(level="model_checking", engine="E6 real ovniemu (ASan+UBSan)", ref="DESIGN.md 5 (C15)",
+                technique="exhaustive metamorphic enumeration: every distribution of per-process and per-loom attributes over the threads and every enumerated stream order of one system must give byte-identical rows and PRV; every single contradiction at every stream must be refused with a message",
+                text="Base system 2 looms x 2 processes x 2 threads x 2 CPUs under 3/5 rank configurations (incl. ranked and unranked looms mixed, rank order opposite to name order, physical ids opposite to indices): every way of carrying app_id and rank on the non-empty thread subsets of each process, every covering family of CPU sub-lists in every array order (ascending and descending), and stream directory creation orders, alone and combined: thread.row, cpu.row, thread.prv and cpu.prv must be byte-identical to the canonical distribution and the rows must follow the documented ordering. Every single contradiction (app id, rank incl. rank 0, nranks, index<->phyid both ways, duplicate TID, no CPUs, no app id, rank missing in one process) at every stream and in both enumeration orders must exit 1 with an error message.",
+                note="Trusted: lib/obs.py writer, documented ordering encoded in checks/c13.py:expected_rows. One base system size."),
     "C19": dict(level="exploration", engine="E6 tools with ASan+UBSan and exact-size heap stream buffers", ref="DESIGN.md 5 (C19)",
                 technique="exhaustive enumeration of a stated mutation and grammar space (not sampling): every single structure-aware corruption of four base traces and every stream of 2/3 atoms from 40 valid/malformed event encodings, through ovniemu, ovnidump, ovnitop and ovnisort built with AddressSanitizer+UBSan; stream.c compiled with -Dmmap=verif_mmap so the stream lives in an exact-size heap buffer",
                 text="For every case of the space each of the four tools must terminate within 8 s with exit status 0 or 1, without signal and without sanitizer report. The space: C12's operators plus all flag bytes, clock bytes, 13 abusive jumbo size fields, cut/unterminated jumbo data, events stripped of payload, phantom payloads, abusive loom_cpus shapes and metadata values, non-object/deeply nested JSON, missing/empty stream.obs, and all 1600 (quick) / 24000 (thorough) atom sequences after a valid prefix. The claim covers this space, not all byte strings.",
